@@ -188,6 +188,7 @@ func caseC09(t TB, prog *Program) {
 			return
 		}
 	}
+	finalConsistency(e, e.db)
 	// Close must return, too
 	cdone := make(chan struct{})
 	go func() {
